@@ -138,6 +138,11 @@ def constructed(rng):
     for radix in radices:
         for lit in ("1", "-17.5", "1e2", "ff", "", "0.000", "١"):
             out.append("nt_radix %d %s" % (radix, E.hexs(lit)))
+    # radix 10 must behave exactly like from_str: the ends of the coefficient range, long literals, near misses
+    for lit in (str(M), str(-M), str(M + 1), str(-M - 1), "-" + "0" * 5 + str(M + 1), "+" + str(M), str(1 << 128), str(-(1 << 128)),
+                "0" * 300 + "1.50", "1." + "0" * 18, "1." + "0" * 19, "1e38", "1e39", "0e39", ".5", "5.", " 1", "1_0", "0x10", "١",
+                "-0.000", "+.5e-3", "1" + "0" * 38, "9" * 39, "0." + "0" * 17 + "1", "0." + "0" * 18 + "1"):
+        out.append("nt_radix 10 %s" % E.hexs(lit))
     # values whose low 32 / 64 / 96 bits equal those of zero, one (10^s at scale s), minus one: predicates on a truncated
     # coefficient
     for s in range(19):
